@@ -13,8 +13,7 @@ import GV.Model.Atomic
               normalisation-shift bookkeeping around the two digits is covered by the correspondence runs only
   unicode     `to_eq_scan`: the override's binary search = the linear scan on EVERY sorted table, all runes, all cases
               (the real tables' sortedness: GV.Props.C13Env over the regenerated tables)
-  sync/atomic `swap_spec`, `cas_spec`, `add_wraps`, `load_store_spec`; `value_store_eq`, `value_swap_eq`,
-              `value_cas_partial` + `value_cas_counterexample` (known finding)
+  sync/atomic `swap_spec`, `cas_spec`, `add_wraps`, `load_store_spec`; `value_store_eq`, `value_swap_eq`, `value_cas_eq`
   nosync      `nosync_refines_sync`, `pool_get_allowed`, `once_runs_once`, `range_calls`
   math        see the section at the end (bit reinterpretation, sign/class tables, integer parts)
 -/
@@ -132,18 +131,9 @@ theorem value_swap_eq (v new : Iface) : vSwap v new = specSwap v new := by
   cases new <;> cases v <;> simp [vSwap, specSwap, checkNew, sameType]
   split <;> simp_all
 
-/-- full-strength statement for `Value.CompareAndSwap` — NOT claimed: false of the current code -/
-def value_cas_full : Prop := ∀ v old new : Iface, vCas v old new = specCas v old new
-
-/-- witness: `v.Store(1); v.CompareAndSwap(nil, 2)` — upstream returns false, the override panics -/
-theorem value_cas_counterexample : ¬ value_cas_full := by
-  intro h
-  have := h (some (1, 1)) none (some (1, 2))
-  simp [vCas, specCas, checkNew, sameType] at this
-
-/-- CompareAndSwap agrees with upstream except for `old == nil` on a non-empty Value holding new's type -/
-theorem value_cas_partial (v old new : Iface) (hx : ¬ (v ≠ none ∧ old = none ∧ sameType new v = true)) :
-    vCas v old new = specCas v old new := by
+/-- `Value.CompareAndSwap` of the override = upstream value.go, for every content, `old` and `new` (full strength since
+    fixes/C13-atomic-value-cas.patch) -/
+theorem value_cas_eq (v old new : Iface) : vCas v old new = specCas v old new := by
   cases new with
   | none => simp [vCas, specCas, checkNew]
   | some n =>
@@ -157,16 +147,17 @@ theorem value_cas_partial (v old new : Iface) (hx : ¬ (v ≠ none ∧ old = non
     | some cur =>
       cases old with
       | none =>
-        simp only [sameType] at hx
-        have hne : ¬ (n.1 = cur.1) := by simpa using hx
-        simp [vCas, specCas, checkNew, sameType, hne]
-        intro h; exact absurd h.symm hne
+        simp only [vCas, specCas, checkNew, sameType]
+        by_cases h1 : n.1 = cur.1 <;> simp [h1] <;> (try simp_all) <;> (try omega)
       | some o =>
         simp only [vCas, specCas, checkNew, sameType]
-        by_cases h1 : n.1 = cur.1 <;> by_cases h2 : o.1 = n.1 <;> simp [h1, h2] <;> simp_all <;> omega
+        by_cases h1 : n.1 = cur.1 <;> by_cases h2 : o.1 = n.1 <;> simp [h1, h2] <;> (try simp_all) <;> (try omega)
 
-example : ¬ ((some (1, 1) : Iface) ≠ none ∧ (some (1, 1) : Iface) = none ∧ sameType (some (1, 2)) (some (1, 1)) = true) := by
-  simp
+/-- REPAIRED DEFECT: the scheme before the repair panicked on `v.Store(1); v.CompareAndSwap(nil, 2)` (upstream: false) -/
+theorem value_cas_old_counterexample : ¬ (∀ v old new : Iface, vCasOld v old new = specCas v old new) := by
+  intro h
+  have := h (some (1, 1)) none (some (1, 2))
+  simp [vCasOld, specCas, checkNew, sameType] at this
 
 /-! ### nosync -/
 
@@ -246,23 +237,20 @@ theorem floor_eq (x : Nat) (hx : x < two64) : floorJS x = floorGo x := GV.Proofs
 /-- `Ceil` = `Math.ceil` = upstream `Ceil`, ALL bit patterns (incl. results -0 for -1 < x < 0) -/
 theorem ceil_eq (x : Nat) (hx : x < two64) : ceilJS x = ceilGo x := GV.Proofs.FloatBits.ceil_eq x hx
 
-/-- `Trunc`: NOT equal to upstream for all patterns (`GV.Proofs.FloatBits.trunc_full` is refuted twice) -/
-theorem trunc_counterexample_large : ¬ GV.Proofs.FloatBits.trunc_full := GV.Proofs.FloatBits.trunc_counterexample_large
-theorem trunc_counterexample_tiny : trunc 0x8000000000000001 ≠ truncGo 0x8000000000000001 :=
-  GV.Proofs.FloatBits.trunc_counterexample_tiny
+/-- `Trunc` = `Math.trunc` = upstream `Trunc`, ALL bit patterns (full strength since fixes/C13-math-trunc.patch) -/
+theorem trunc_eq (x : Nat) (hx : x < two64) : trunc x = truncGo x := GV.Proofs.FloatBits.trunc_eq x hx
 
-/-- `Trunc` = upstream for |x| < 2^31 and NaN, except negative non-zero |x| ≤ 2^-1024 -/
-theorem trunc_partial (x : Nat) (hx : x < two64) (hsmall : expo x < 1054 ∨ isNaN x = true)
-    (htiny : ¬ (recipIsNegInf x = true ∧ isZero x = false)) : trunc x = truncGo x :=
-  GV.Proofs.FloatBits.trunc_partial x hx hsmall htiny
+/-- `Modf` = upstream `Modf`, ALL bit patterns: integer part bit-exact (signed zeros included), NaN-ness, sign and
+    zero-ness of the fraction (full strength since fixes/C13-math-modf.patch) -/
+theorem modf_eq (f : Nat) (h : f < two64) : modf f = modfGo f := GV.Proofs.FloatBits.modf_eq f h
 
-/-- `Modf`: NOT equal to upstream for all patterns -/
-theorem modf_counterexample_frac : ¬ GV.Proofs.FloatBits.modf_full := GV.Proofs.FloatBits.modf_counterexample_frac
-theorem modf_counterexample_tiny : modf 0x8000000000000001 ≠ modfGo 0x8000000000000001 :=
-  GV.Proofs.FloatBits.modf_counterexample_tiny
+/-! #### repaired defects: the schemes before the repairs (`truncOld`, `modfOld`) -/
 
-/-- `Modf` = upstream (integer part bits; sign and zero-ness of the fraction) except for negative f with |f| < 1, f ≠ -0 -/
-theorem modf_partial (f : Nat) (h : f < two64) (hx : ¬ (sign f = 1 ∧ expo f < 1023 ∧ isZero f = false)) :
-    modf f = modfGo f := GV.Proofs.FloatBits.modf_partial f h hx
+theorem trunc_old_counterexample_large : ¬ GV.Proofs.FloatBits.truncOld_full := GV.Proofs.FloatBits.truncOld_counterexample_large
+theorem trunc_old_counterexample_tiny : truncOld 0x8000000000000001 ≠ truncGo 0x8000000000000001 :=
+  GV.Proofs.FloatBits.truncOld_counterexample_tiny
+theorem modf_old_counterexample_frac : ¬ GV.Proofs.FloatBits.modfOld_full := GV.Proofs.FloatBits.modfOld_counterexample_frac
+theorem modf_old_counterexample_tiny : modfOld 0x8000000000000001 ≠ modfGo 0x8000000000000001 :=
+  GV.Proofs.FloatBits.modfOld_counterexample_tiny
 
 end GV.Props.C13
